@@ -3,6 +3,7 @@ import Prism.Model.Png
 import Prism.Model.Jpeg
 import Prism.Model.Webp
 import Prism.Model.Icc
+import Prism.Model.Reader
 
 /-! Driver operations for the byte-side models (pure interpretation). -/
 
@@ -76,6 +77,61 @@ def endErrOf : String → IOErr
   | "fault" => .fault
   | _ => .eof
 
+/-- pulled-bytes interval after one loader stage -/
+structure PullRange where
+  lo : Nat
+  hi : Nat
+
+/-- one `Load` stage over `r`; returns result, returned stream, and the interval the number of
+bytes pulled from the original source is known to lie in -/
+def stage (zl : Prog.Inflate) (p : Prog (Except PErr Meta)) (r : Rd) (before : PullRange) :
+    Except PErr Meta × Rd × PullRange :=
+  let (a, rd, st) := loadSt zl p r
+  let exact := rd.pulled
+  if st.lazyUsed then
+    (a, rd, ⟨max before.lo st.consumed, max before.hi (st.consumed + bufSize)⟩)
+  else if before.lo == before.hi then (a, rd, ⟨exact, exact⟩)
+  else (a, rd, ⟨max before.lo st.consumed, max before.hi (st.consumed + bufSize)⟩)
+
+def loadStack (zl : Prog.Inflate) (f : String) (fuel : Nat) (r : Rd) : Except PErr Meta × Rd × PullRange :=
+  let z : PullRange := ⟨0, 0⟩
+  match f with
+  | "png" => stage zl (progOf .png fuel) r z
+  | "jpeg" => stage zl (progOf .jpeg fuel) r z
+  | "webp" => stage zl (progOf .webp fuel) r z
+  | _ =>
+    let (a1, r1, p1) := stage zl (progOf .png fuel) r z
+    match a1 with
+    | .ok m => (.ok m, r1, p1)
+    | .error _ =>
+      let (a2, r2, p2) := stage zl (progOf .jpeg fuel) r1 p1
+      match a2 with
+      | .ok m => (.ok m, r2, p2)
+      | .error _ =>
+        let (a3, r3, p3) := stage zl (progOf .webp fuel) r2 p2
+        match a3 with
+        | .ok m => (.ok m, r3, p3)
+        | .error _ => (.error (.bad "unrecognised image format"), r3, p3)
+
+def parseSched (s : String) : List Nat :=
+  if s == "-" then [] else (s.splitOn ",").filterMap fun t => t.toNat?
+
+def errStr : Option IOErr → String
+  | some .eof => "eof"
+  | some .unexpectedEof => "ueof"
+  | some .fault => "fault"
+  | none => "none"
+
+def loadxRun (f : String) (ee : String) (ewd : String) (sched : String) (data : List UInt8)
+    (tbl : List (List UInt8 × Except String (List UInt8))) : String :=
+  let src : Src := { rest := data, sched := parseSched sched, endErr := endErrOf ee, eofWithData := ewd == "1" }
+  let (a, rd, pr) := loadStack (oracleInflate tbl) f (data.length + 16) (.src src)
+  -- what the caller sees when it reads the returned stream to the end (512-byte requests)
+  let (bytes, e, _) := rd.drain (data.length + 8) 512 []
+  let pulled := if pr.lo == pr.hi then s!"{pr.lo}" else s!"[{pr.lo}..{pr.hi}]"
+  s!"{resStr a} pulled={pulled} replay={bytesDigest bytes} end={errStr e}"
+
+
 def fmt3Of? : String → Option Fmt3
   | "png" => some .png | "jpeg" => some .jpeg | "webp" => some .webp | _ => none
 
@@ -139,6 +195,43 @@ def handleBytes (toks : List String) : Option String :=
     | some d, some tbl, some f3 =>
       let (r, c) := runFmt f3 (oracleInflate tbl) d.toList .eof
       some s!"{if r.isOk then "ok" else "err"} consumed={c.consumed} steps={c.steps} alloc={c.alloc}"
+    | _, _, _ => some "bad-op"
+  | "loadx" :: f :: ee :: ewd :: sched :: dh :: orc =>
+    match parseHexBytes? dh, parseOracle orc with
+    | some d, some tbl => some (loadxRun f ee ewd sched d.toList tbl)
+    | _, _ => some "bad-op"
+  | "loadp" :: f :: dh :: orc =>
+    -- load, then `md.ICCProfile()` and `Description()` on what was extracted
+    match parseHexBytes? dh, parseOracle orc with
+    | some d, some tbl =>
+      let o := oracleInflate tbl
+      let r := if f == "auto" then autoRun o d.toList .eof
+               else match fmt3Of? f with
+                 | some f3 => (runFmt f3 o d.toList .eof).1
+                 | none => .error (.bad "fmt")
+      match r with
+      | .error _ => some "err"
+      | .ok m =>
+        let prof := match m.icc with
+          | .none => "none"
+          | .err _ => "err"
+          | .data b =>
+            match (Prog.runPure (fun _ => .error "none") Icc.readProfile.run b .eof {}).1 with
+            | .error _ => "err"
+            | .ok p => "ok desc=" ++ descStr p.tags
+        some s!"{metaStr m} prof={prof}"
+    | _, _ => some "bad-op"
+  | "pullx" :: f :: sched :: tail :: dh :: orc =>
+    match parseHexBytes? dh, parseOracle orc, tail.toNat? with
+    | some d, some tbl, some t =>
+      -- the file continues with `t` zero bytes of pixel data; the model is given at most 70000 of
+      -- them (a loader that respects C18 never gets that far, one that does not shows up as a
+      -- different `pulled`)
+      let data := d.toList ++ List.replicate (min t 70000) 0
+      let src : Src := { rest := data, sched := parseSched sched }
+      let (a, _, pr) := loadStack (oracleInflate tbl) f (data.length + 16) (.src src)
+      let pulled := if pr.lo == pr.hi then s!"{pr.lo}" else s!"[{pr.lo}..{pr.hi}]"
+      some s!"{resStr a} pulled={pulled}"
     | _, _, _ => some "bad-op"
   | ["icc", ee, dh] =>
     match parseHexBytes? dh with
